@@ -174,7 +174,8 @@ func ZZ_C20_batches() {
 			oversize = true
 		}
 	}
-	zzsym.Region("some-height-not-readable-yet", anyFuture || anyErr)
+	zzsym.Region("some-height-not-readable-yet", anyFuture)
+	zzsym.Region("some-height-fails-with-an-error", anyErr)
 	zzsym.Region("a-transaction-exceeds-the-limit", oversize)
 	carried := false
 	for c := 0; c < zzC20Calls; c++ {
